@@ -4,7 +4,7 @@ Stages
   E     MeshSurgery.tla: abstract complexes grown from a tetrahedron / octahedron by face and edge
         splits, with edge flips and edge collapses under the guards the code applies; TLC checks that
         closed + manifold + oriented + Euler characteristic are invariant (all behaviours of bounded depth).
-  R/V   TLC (OpsGen) enumerates every chain of <= 2 operations out of 18 (3-D) / 9 (2-D) on every mesh
+  R/V   TLC (OpsGen) enumerates every chain of <= 2 operations out of 25 (3-D) / 10 (2-D) on every mesh
         of a palette (boxes, subdivided boxes with coplanar runs, voxel shapes, icosphere, torus, two
         components, thin box, octahedron; rectangles with colinear runs, pixel outlines with a hole,
         polygons); the harness runs the real operations with a deadline and records every step as an
